@@ -41,7 +41,11 @@ def main():
     os.makedirs("/tmp/evalv", exist_ok=True)
     wt = "/tmp/evalv/%s-%s-repo" % (a.id, a.x)
     shutil.rmtree(wt, ignore_errors=True)
-    sh("git -C /repo worktree prune; git -C /repo worktree add --detach %s HEAD" % wt)
+    # worktree bookkeeping of /repo is shared by parallel evaluations: serialise it
+    sh("flock /tmp/evalv/.wtlock git -C /repo worktree add --detach %s HEAD" % wt)
+    if not os.path.exists(os.path.join(wt, "go.mod")):
+        print("cannot create worktree", wt)
+        sys.exit(3)
     patch = out + "/patch.diff"
     meta = json.load(open(out + "/meta.json"))
     report = {"property": a.id, "variant": a.x, "summary": meta.get("summary"), "needs": meta.get("needs")}
@@ -57,7 +61,7 @@ def main():
         if rc != 0:
             print("PATCH DOES NOT APPLY", o)
             sys.exit(3)
-        rc, o = sh("go build ./...", cwd=wt)
+        rc, o = sh("go build " + (" ".join("./%s/..." % t for t in touched) if os.environ.get("EVALSEED_FAST") else "./..."), cwd=wt)
         report["builds"] = rc == 0
         if rc != 0:
             print("DOES NOT BUILD\n", o[-2000:])
@@ -136,7 +140,7 @@ def main():
                     break
     finally:
         shutil.rmtree(iso, ignore_errors=True)
-        sh("git -C /repo worktree remove --force %s" % wt)
+        sh("flock /tmp/evalv/.wtlock git -C /repo worktree remove --force %s" % wt)
     kd = "/verif/seeded/%s-%s" % (a.id, a.x)
     if os.path.exists(kd + "/meta.json"):
         prev = json.load(open(kd + "/meta.json")).get("confirmed", {})
